@@ -23,6 +23,7 @@ func runC01(p *core.Prog, r *core.Result) {
 		"R1.5 a function target is up to date only if forced-rerun is recorded, or its environment is unchanged and every declared output exists",
 		"R1.6 generated files are linked to their generator on every full load, and a linked file depends on its generator",
 		"R1.7 records are written only after a successful body; a failed body records a pending re-run",
+		"R1.10 runTarget.changed is only ever set to true or to the result of the evaluation just performed, never reset: a target that executed keeps forcing its later dependents in the same process",
 		"R1.9 a source file is reported up to date only on equality of its recorded sum with a hash of its current contents computed during that very check (no cache, size or modification-time shortcut in between)",
 		"R1.8 loading a target writes back the record read with every field but the documentation unchanged (type-driven, field by field): a failed target's pending re-run survives any number of loads that do not run it",
 	}
@@ -51,6 +52,24 @@ func runC01(p *core.Prog, r *core.Result) {
 			x = core.Unwrap(x)
 			if ok, k := isCarrier(x); ok {
 				return true, k
+			}
+			// the carrier with further "out of date" verdicts merged in after the loop (phi of the carrier and
+			// constant false): fresh still implies that the loop found every dependency up to date
+			if ph, isPhi := x.(*ssa.Phi); isPhi && !core.Reaches(ph.Block(), ph.Block(), false) {
+				okAll, some := true, false
+				for _, e := range ph.Edges {
+					if b, isConst := core.ConstBool(e); isConst && !b {
+						continue
+					}
+					if ok, k := isCarrier(core.Unwrap(e)); ok && k == "bool" {
+						some = true
+						continue
+					}
+					okAll = false
+				}
+				if okAll && some {
+					return true, "bool"
+				}
 			}
 			// a result of the dependency helper that is a carrier there
 			if e, ok := x.(*ssa.Extract); ok && m.DepsSite != nil && e.Tuple == ssa.Value(m.DepsSite) {
@@ -205,6 +224,30 @@ func runC01(p *core.Prog, r *core.Result) {
 
 	// ---- R1.8 a load preserves the record (a pending re-run survives loads that do not run the target)
 	checkLoadRewritesRead(p, r, "R1.8")
+
+	// ---- R1.10 "changed" is never taken back: a runTarget lives as long as its Project (REPL, run builtin), its
+	// in-memory stamp is not refreshed after it executed, so the flag is what makes later dependents re-run
+	nCh := 0
+	for _, fn := range p.ModuleFuncs() {
+		if fn.Pkg == nil || fn.Pkg.Pkg.Path() != pkgRoot {
+			continue
+		}
+		core.Instrs(fn, func(in ssa.Instruction) {
+			st, ok := in.(*ssa.Store)
+			if !ok || !core.IsField(st.Addr, pkgRoot, "runTarget", "changed") {
+				return
+			}
+			nCh++
+			construct := fmt.Sprintf("%s#changed-store-%d", fname(fn), nCh)
+			if b, isConst := core.ConstBool(st.Val); isConst {
+				r.Check(b, "R1.10", construct, p.InstrPos(st), "sets changed", "the changed flag of a target is reset: on a Project that is used for several runs (REPL, run builtin) a dependency that executed in an earlier run hands later dependents its load-time stamp with changed=false, so a dependent outside the earlier run's closure is skipped although its dependency executed after it last ran")
+				return
+			}
+			fromEval := m.Evaluate != nil && st.Val == extractOf(m.Evaluate, 1)
+			r.Check(fromEval, "R1.10", construct, p.InstrPos(st), "takes the changed result of the evaluation just performed (always true on success, R13.2)", "the changed flag is assigned something other than true or the result of the evaluation just performed")
+		})
+	}
+	r.Floor("R1.10", nCh, 1, "stores to runTarget.changed")
 
 	// ---- R1.9 a source is compared by a fresh hash of its current contents
 	checkSourceCompare(p, r, "R1.9")
@@ -499,10 +542,36 @@ func (c stalenessCarrier) marked(e ssa.Value) bool {
 }
 
 func findStalenessCarriers(fn *ssa.Function) []stalenessCarrier {
+	// the dependency loop: the loop that walks the results of Engine.EvaluateTargets
+	var results ssa.Value
+	for _, c := range core.Calls(fn) {
+		if call, ok := c.(*ssa.Call); ok && isInvoke(c, "Engine", "EvaluateTargets") {
+			results = call
+		}
+	}
+	inDepLoop := func(b *ssa.BasicBlock) bool {
+		if results == nil {
+			return true
+		}
+		uses := false
+		for _, x := range fn.Blocks {
+			if x != b && !(core.Reaches(b, x, false) && core.Reaches(x, b, false)) {
+				continue
+			}
+			for _, in := range x.Instrs {
+				for _, op := range in.Operands(nil) {
+					if *op == results {
+						uses = true
+					}
+				}
+			}
+		}
+		return uses
+	}
 	var out []stalenessCarrier
 	core.Instrs(fn, func(in ssa.Instruction) {
 		ph, ok := in.(*ssa.Phi)
-		if !ok || !core.Reaches(ph.Block(), ph.Block(), false) {
+		if !ok || !core.Reaches(ph.Block(), ph.Block(), false) || !inDepLoop(ph.Block()) {
 			return
 		}
 		switch t := ph.Type().Underlying().(type) {
